@@ -192,6 +192,11 @@ impl Clone for Elem {
         Elem { id: fresh_id(), val: self.val }
     }
 }
+impl PartialEq for Elem {
+    fn eq(&self, o: &Self) -> bool {
+        self.val == o.val
+    }
+}
 impl El for Elem {
     const KIND: char = 'E';
     const SIZE: usize = 16;
@@ -227,6 +232,11 @@ impl Clone for Zst {
         Zst::mk(0)
     }
 }
+impl PartialEq for Zst {
+    fn eq(&self, _o: &Self) -> bool {
+        true
+    }
+}
 impl El for Zst {
     const KIND: char = 'Z';
     const SIZE: usize = 0;
@@ -250,6 +260,11 @@ impl El for Zst {
 pub struct CElem {
     pub id: u64,
     pub val: u32,
+}
+impl PartialEq for CElem {
+    fn eq(&self, o: &Self) -> bool {
+        self.val == o.val
+    }
 }
 impl El for CElem {
     const KIND: char = 'C';
@@ -279,12 +294,18 @@ pub trait SEl: Clone + PartialEq + 'static {
     fn mk(val: u32) -> Self;
     fn val(&self) -> u32;
 }
-impl SEl for u32 {
+/// same size as `Elem`, so that the same counts overflow the same way on both sides
+#[derive(Clone, PartialEq, Debug)]
+pub struct SE {
+    pub val: u32,
+    pub pad: u64,
+}
+impl SEl for SE {
     fn mk(val: u32) -> Self {
-        val
+        SE { val, pad: 0 }
     }
     fn val(&self) -> u32 {
-        *self
+        self.val
     }
 }
 impl SEl for () {
